@@ -2,7 +2,7 @@
 From Coq Require Import ZifyBool.
 From Vx Require Import base.Prelude base.ListX model.ParserTypes gen.GenParser model.Parser
   model.Vt500Spec proofs.ParserTable proofs.ParserConform
-  model.Mouse gen.GenInput model.Input proofs.ParserLife.
+  model.Mouse gen.GenInput model.Input model.InputCheck proofs.ParserLife.
 
 (* ================= A. what the parser can deliver is well formed ================= *)
 
@@ -1927,3 +1927,249 @@ Lemma request_bodies :
   (exists q, query_foreground_body = [PWrite q; PRecv 3]) /\
   (exists q, query_background_body = [PWrite q; PRecv 4]).
 Proof. repeat split; eexists; reflexivity. Qed.
+
+(* ================= K. the clipboard hand-off ================= *)
+
+Lemma fields_nonempty c s : fields c s <> [].
+Proof.
+  induction s as [|x t IH]; cbn [fields]; [discriminate|].
+  destruct (x =? c); [discriminate|]. destruct (fields c t); discriminate.
+Qed.
+
+(* the left-to-right split of the code is the right-to-left split of the specification *)
+Lemma split_on_fields c s : forall cur,
+  split_on c cur s = match fields c s with f :: r => (cur ++ f) :: r | [] => [] end.
+Proof.
+  induction s as [|x t IH]; intros cur; cbn [split_on fields].
+  - rewrite app_nil_r. reflexivity.
+  - destruct (x =? c).
+    + rewrite (IH []). pose proof (fields_nonempty c t) as Hn.
+      destruct (fields c t) as [|f r]; [contradiction|]. rewrite app_nil_r. reflexivity.
+    + rewrite (IH (cur ++ [x])). pose proof (fields_nonempty c t) as Hn.
+      destruct (fields c t) as [|f r]; [contradiction|]. rewrite <- app_assoc. reflexivity.
+Qed.
+
+Lemma split_on_is_fields c s : split_on c [] s = fields c s.
+Proof.
+  rewrite split_on_fields. pose proof (fields_nonempty c s) as Hn.
+  destruct (fields c s); [contradiction|reflexivity].
+Qed.
+
+Section Clipboard.
+Variable dec : item -> ikey.
+Variable b64 : list Z -> option (list Z).
+
+(* what one delivered sequence hands to the caller of ClipboardPop, and whether the caller is
+   still waiting afterwards *)
+Definition clip_item_spec (w : bool) (ans : option (list Z)) : list (list Z) * bool :=
+  match ans with
+  | Some b => (if w then [b] else [], false)
+  | None => ([], w)
+  end.
+
+Definition clipspec (w : bool) (ans : option (list Z)) (o : outcome) : Prop :=
+  forall s' es, o = Ok s' es -> (clips_of es, w_clip s') = clip_item_spec w ans.
+
+Lemma clips_of_app a b : clips_of (a ++ b) = clips_of a ++ clips_of b.
+Proof. unfold clips_of. apply flat_map_app. Qed.
+
+Lemma cs_ret w s : w_clip s = w -> clipspec w None (ret s).
+Proof. intros H s' es E. injection E as <- <-. cbn. rewrite H. reflexivity. Qed.
+Lemma cs_post w e s : w_clip s = w -> clipspec w None (post e s).
+Proof.
+  intros H s' es. unfold post. destruct (q_stalled s) as [n|]; [destruct (0 <? n)|];
+    intros E; try discriminate; injection E as <- <-; cbn; rewrite H; reflexivity.
+Qed.
+Lemma cs_try_post w e s : w_clip s = w -> clipspec w None (try_post e s).
+Proof.
+  intros H s' es. unfold try_post. destruct (q_stalled s) as [n|]; [destruct (0 <? n)|];
+    intros E; injection E as <- <-; cbn; rewrite H; reflexivity.
+Qed.
+Lemma cs_post_key w it s : w_clip s = w -> clipspec w None (post_key dec it s).
+Proof. apply cs_post. Qed.
+Lemma cs_send_size_done w s : w_clip s = w -> clipspec w None (send_size_done s).
+Proof.
+  intros H s' es. unfold send_size_done. destruct (size_done s <? 1);
+    intros E; injection E as <- <-; cbn; rewrite H; reflexivity.
+Qed.
+Lemma cs_send_cursor w r c s : w_clip s = w -> clipspec w None (send_cursor r c s).
+Proof.
+  intros H s' es. unfold send_cursor. destruct (w_cursor s);
+    intros E; injection E as <- <-; cbn; rewrite H; reflexivity.
+Qed.
+Lemma cs_panic w ans es : clipspec w ans (Panic es).
+Proof. intros s' es' E. discriminate. Qed.
+Lemma cs_blocks w ans es : clipspec w ans (Blocks es).
+Proof. intros s' es' E. discriminate. Qed.
+Lemma cs_need {A} w ans (o : option A) f : (forall x, clipspec w ans (f x)) -> clipspec w ans (need o f).
+Proof. intros H. destruct o; [apply H|apply cs_panic]. Qed.
+(* a step that hands nothing over, followed by anything *)
+Lemma cs_bind w ans o f : clipspec w None o -> (forall s1, w_clip s1 = w -> clipspec w ans (f s1)) ->
+  clipspec w ans (bind o f).
+Proof.
+  intros Ho Hf s' es. destruct o as [s1 es1|es1|es1]; cbn [bind]; try discriminate.
+  specialize (Ho s1 es1 eq_refl). cbn [clip_item_spec] in Ho. injection Ho as Hc Hw.
+  specialize (Hf s1 Hw). destruct (f s1) as [s2 es2|es2|es2] eqn:Ef; try discriminate.
+  intros E. injection E as <- <-. rewrite clips_of_app, Hc. cbn [app]. exact (Hf s2 es2 eq_refl).
+Qed.
+
+Lemma cs_da1 w ps : forall s, w_clip s = w -> clipspec w None (da1_loop ps s).
+Proof.
+  induction ps as [|p t IH]; intros s H; cbn [da1_loop]; [apply cs_ret; exact H|].
+  apply cs_need. intros v. apply cs_bind; [|exact IH].
+  destruct (v =? 4); [apply cs_post|apply cs_ret]; exact H.
+Qed.
+
+Ltac cside := first [ assumption | reflexivity ].
+Ltac cleaf :=
+  first [ apply cs_ret; cside | apply cs_post; cside | apply cs_try_post; cside | apply cs_post_key; cside
+        | apply cs_send_size_done; cside | apply cs_send_cursor; cside | apply cs_da1; cside
+        | apply cs_panic ].
+Ltac ccrush :=
+  repeat first
+    [ cleaf
+    | match goal with
+      | |- clipspec _ _ (bind _ _) => apply cs_bind; [|intros ? ?; cbv beta]
+      | |- clipspec _ _ (need _ _) => apply cs_need; intros ?; cbv beta
+      | |- clipspec _ _ (if ?c then _ else _) => destruct c eqn:?
+      | |- clipspec _ _ (match ?c with _ => _ end) => destruct c eqn:?
+      end ].
+
+Lemma cs_csi inter ps fin s : clipspec (w_clip s) None (handle_csi dec inter ps fin s).
+Proof. unfold handle_csi, decrpm, decrpm_gen. cbv zeta. ccrush. Qed.
+
+Lemma cs_dcs fin inter ps data s : clipspec (w_clip s) None (handle_dcs fin inter ps data s).
+Proof. unfold handle_dcs. ccrush. Qed.
+
+Lemma cs_osc_color w (cap : bool) (getf : vxstate -> option (list Z))
+      (setf : vxstate -> option (list Z) -> vxstate) c pl s :
+  w_clip (if cap then setf s (offer (getf s) pl) else s) = w ->
+  clipspec w None (osc_color cap getf setf c pl s).
+Proof. intros H. unfold osc_color. apply cs_post. exact H. Qed.
+
+Lemma zlen3 {A} (l : list A) : (zlen l =? 3) = true -> exists a b c, l = [a; b; c].
+Proof.
+  intros H. apply Z.eqb_eq in H. destruct l as [|a [|b [|c [|d t]]]]; try (cbv in H; discriminate).
+  - eauto.
+  - rewrite !zlen_cons in H. pose proof (zlen_nonneg t). lia.
+Qed.
+
+Lemma not_zlen3 {A} (l : list A) : (zlen l =? 3) = false ->
+  match l with [_; _; _] => False | _ => True end.
+Proof. destruct l as [|a [|b [|c [|d t]]]]; try exact (fun _ => I). cbv. discriminate. Qed.
+
+Lemma cs_osc payload s :
+  clipspec (w_clip s) (clip_answer b64 (IOsc payload)) (handle_osc b64 payload s).
+Proof.
+  unfold handle_osc, clip_answer. cbv zeta. set (pl := gostring payload).
+  apply cs_bind.
+  { destruct (prefixb [52] pl); [|apply cs_ret; reflexivity].
+    apply cs_osc_color. destruct (c_osc4 (vcaps s)); reflexivity. }
+  intros s1 H1. apply cs_bind.
+  { destruct (prefixb [49; 48] pl); [|apply cs_ret; exact H1].
+    apply cs_osc_color. destruct (c_osc10 (vcaps s1)); exact H1. }
+  intros s2 H2. apply cs_bind.
+  { destruct (prefixb [49; 49] pl); [|apply cs_ret; exact H2].
+    apply cs_osc_color. destruct (c_osc11 (vcaps s2)); exact H2. }
+  intros s3 H3. rewrite split_on_is_fields.
+  destruct (prefixb [53; 50] pl).
+  - destruct (zlen (fields 59 pl) =? 3) eqn:E3; cbn [negb].
+    + destruct (zlen3 _ E3) as (a & b & c & ->). change (zget [a; b; c] 2) with (Some c). cbn [need].
+      destruct (b64 c) as [v|]; [|apply cs_ret; exact H3].
+      intros s' es. unfold send_clip. rewrite H3. destruct (w_clip s);
+        intros E; injection E as <- <-; cbn; rewrite ?H3; reflexivity.
+    + pose proof (not_zlen3 _ E3) as Hn.
+      assert (Hnone : match fields 59 pl with [_; _; d] => b64 d | _ => None end = None).
+      { destruct (fields 59 pl) as [|a [|b [|c [|d t]]]]; try reflexivity. contradiction. }
+      rewrite Hnone. apply cs_ret. exact H3.
+  - destruct (prefixb [49; 55; 54] pl); [|apply cs_ret; exact H3].
+    destruct (negb (zlen (fields 59 pl) =? 2)); [apply cs_ret; exact H3|].
+    apply cs_need. intros v1. apply cs_try_post. exact H3.
+Qed.
+
+(* every delivered sequence: a clipboard report is handed to the caller that is waiting (who
+   then stops waiting) or dropped; nothing else touches the hand-off *)
+Lemma handle_clips s it : clipspec (w_clip s) (clip_answer b64 it) (handle dec b64 s it).
+Proof.
+  destruct it; cbn [handle clip_answer];
+    first [ apply cs_csi | apply cs_dcs | apply cs_osc | ccrush ].
+Qed.
+
+Lemma clip_app_step s a : w_clip (app_step s a) = clip_wait_app (w_clip s) a.
+Proof. destruct a; reflexivity. Qed.
+
+(* the callers of ClipboardPop receive exactly the reports that arrive while they wait, for
+   EVERY interleaving and every state (no hypothesis on the sequences or on the queue) *)
+Theorem run_steps_clips l : forall s s' es,
+  run_steps dec b64 s l = Ok s' es -> clips_of es = spec_clips b64 (w_clip s) l.
+Proof.
+  induction l as [|x t IH]; intros s s' es E.
+  - injection E as <- <-. reflexivity.
+  - destruct x as [it|a].
+    + assert (Hgen : bind (handle dec b64 s it) (fun s1 => run_steps dec b64 s1 t) = Ok s' es ->
+               clips_of es = match clip_answer b64 it with
+                             | Some b => if w_clip s then b :: spec_clips b64 false t else spec_clips b64 false t
+                             | None => spec_clips b64 (w_clip s) t
+                             end).
+      { intros Eb. destruct (handle dec b64 s it) as [s1 es1|es1|es1] eqn:Eh; cbn [bind] in Eb; try discriminate.
+        destruct (run_steps dec b64 s1 t) as [s2 es2|es2|es2] eqn:Er; try discriminate.
+        injection Eb as <- <-. pose proof (handle_clips s it s1 es1 Eh) as Hc.
+        rewrite clips_of_app, (IH s1 s2 es2 Er).
+        destruct (clip_answer b64 it) as [b|]; cbn [clip_item_spec] in Hc; injection Hc as -> ->.
+        - destruct (w_clip s); reflexivity.
+        - reflexivity. }
+      destruct it; try (apply Hgen; exact E).
+      cbn in E. injection E as <- <-. reflexivity.
+    + cbn [run_steps spec_clips] in *. rewrite (IH _ _ _ E), clip_app_step. reflexivity.
+Qed.
+End Clipboard.
+
+(* ================= L. the model satisfies the predicate of the "handle" stream ================= *)
+
+Lemma list_eqb_refl' {A} (e : A -> A -> bool) l : (forall x, e x x = true) -> list_eqb e l l = true.
+Proof. intros H. induction l as [|x t IH]; cbn; [reflexivity|]. rewrite H, IH. reflexivity. Qed.
+Lemma zlist_eqb_refl' l : zlist_eqb l l = true.
+Proof. apply list_eqb_refl'. apply Z.eqb_refl. Qed.
+Lemma ikey_eqb_refl k : ikey_eqb k k = true.
+Proof. unfold ikey_eqb. rewrite zlist_eqb_refl', !Z.eqb_refl. reflexivity. Qed.
+Lemma mouse_eqb_refl m : mouse_eqb m m = true.
+Proof. unfold mouse_eqb. rewrite !Z.eqb_refl. reflexivity. Qed.
+Lemma size_eqb_refl z : size_eqb z z = true.
+Proof. unfold size_eqb. rewrite !Z.eqb_refl. reflexivity. Qed.
+Lemma event_eqb_refl e : event_eqb e e = true.
+Proof.
+  destruct e; cbn [event_eqb]; try reflexivity;
+    first [ apply ikey_eqb_refl | apply mouse_eqb_refl | apply Z.eqb_refl | apply zlist_eqb_refl' | apply size_eqb_refl ].
+Qed.
+Lemma zpair_eqb_refl p : zpair_eqb p p = true.
+Proof. unfold zpair_eqb. rewrite !Z.eqb_refl. reflexivity. Qed.
+
+(* For every case input whose schedule can happen (sched_ok: the statements of a call in the
+   translated order, the application reading Events()), in every start state a snapshot can
+   describe, the observation the MODEL predicts satisfies the property predicate of the stream:
+   so a case without mismatch is a case without violation, and the predicate cannot raise a false
+   alarm on code the model describes. *)
+Theorem handle_predicate_sound bits bs sn0 steps kt bt obs :
+  let '(_, rq, _, _, _, _, _, _, _) := sn0 in
+  sched_ok cursor_prog rq [] steps = true ->
+  hcase_violation ((bits, None, bs, sn0), steps, (kt, bt),
+                   model_obs (hcase_model ((bits, None, bs, sn0), steps, (kt, bt), obs))) = false.
+Proof.
+  destruct sn0 as [[[[[[[[p rq] rs] [[[c r] x] y]] uc] sd] lc] lf] lb].
+  intros Hok. unfold hcase_model. cbv beta iota zeta.
+  set (s0 := state_of_snap (caps_of_bits bits) None (p, rq, rs, (c, r, x, y), uc, sd, lc, lf, lb)).
+  assert (Hl : q_stalled s0 = None) by reflexivity.
+  assert (Hp : paste s0 = p) by reflexivity.
+  assert (Hr : req_cursor s0 = rq) by reflexivity.
+  assert (Hwc : w_cursor s0 = false) by reflexivity.
+  assert (Hwk : w_clip s0 = false) by reflexivity.
+  rewrite <- Hr in Hok.
+  destruct (solicited_cursor_reply (dec_of kt) (b64_of bt) steps s0 Hok Hl) as (s' & es & E & _ & Hu & Hc).
+  pose proof (run_steps_clips (dec_of kt) (b64_of bt) steps s0 s' es E) as Hk.
+  rewrite E. unfold model_obs, hcase_violation. cbn [outcome_code outcome_emits]. cbv beta iota zeta.
+  change (0 =? 1) with false. change (0 =? 2) with false. cbv iota.
+  unfold user_events in Hu. rewrite Hu, Hc, Hk, Hp, Hr, Hwc, Hwk.
+  unfold events_eqb. rewrite (list_eqb_refl' event_eqb _ event_eqb_refl).
+  rewrite (list_eqb_refl' zpair_eqb _ zpair_eqb_refl).
+  rewrite (list_eqb_refl' zlist_eqb _ zlist_eqb_refl'). reflexivity.
+Qed.
